@@ -1,6 +1,8 @@
 import Driver.Common
 import CoapVerif.Model.NoResponse
 import CoapVerif.Spec.NoResponse
+import CoapVerif.Model.NoResponseCache
+import CoapVerif.Spec.NoResponseCache
 /-!
 Driver for C20.  `model` prints what the model of the code predicts for an input line; `judge` takes
 `<input line> | <implementation's output line>` and evaluates the specification's judge on it.
@@ -51,8 +53,77 @@ def parseOpts (s : String) : Option (List (Nat × List UInt8)) :=
       some (i, bs)
     | _ => none)
 
+/-! `srvt <step>;<step>;…` — a history on ONE datagram connection: `r<mid>:<con|non>:<v|->:<code>` a request (the i-th request
+    of the line carries the one-byte token `c<i>`), `w<ms>` time passes, `s` the periodic sweep (`Conn.CheckExpirations`) runs. -/
+inductive HStep
+  | req (mid : Nat) (rt : ReqType) (v : Option Nat) (code : Nat)
+  | wait (ms : Nat)
+  | sweep
+
+def parseHStep (s : String) : Option HStep :=
+  if s = "s" then some .sweep
+  else if s.startsWith "w" then (s.drop 1).toNat?.map .wait
+  else if s.startsWith "r" then
+    match (s.drop 1).toString.splitOn ":" with
+    | [m, rt, v, c] => do
+      let m ← m.toNat?
+      let rt ← parseRt rt
+      let v ← parseOptNat v
+      let c ← c.toNat?
+      some (.req m rt v c)
+    | _ => none
+  else none
+
+def parseHistory (s : String) : Option (List HStep) := (s.splitOn ";").mapM parseHStep
+
+/-- absolute times (ms), request numbering -/
+def timeline (now i : Nat) : List HStep → List (Nat × Model.NoResponseCache.Ev)
+  | [] => []
+  | .wait ms :: r => timeline (now + ms) i r
+  | .sweep :: r => (now, .sweep) :: timeline now i r
+  | .req m rt v c :: r => (now, .req ⟨i, m, rt, v, c⟩) :: timeline now (i + 1) r
+
+def tokName (i : Nat) : String := "c" ++ String.singleton (Nat.digitChar (i % 16))
+
+def fmtOut (o : Model.NoResponseCache.Out) : String :=
+  let set := match o.ran with | some true => "accepted" | some false => "refused" | none => "nocall"
+  let tail := String.join (o.sent.map (fun s => s!" {s.typ} {s.code} {s.mid} {match s.tok with | some i => tokName i | none => "-"}"))
+  s!"set {set} sent {o.sent.length}{tail}"
+
+def parseSentTok (own : String) : List String → Option (List Sent)
+  | [] => some []
+  | t :: c :: m :: tok :: r => do
+    let c ← c.toNat?
+    let rest ← parseSentTok own r
+    some (⟨t, c, m, tok == own⟩ :: rest)
+  | _ => none
+
+/-- one request's observation: `set <accepted|refused|nocall|…> sent <n> …` -/
+def parseObs (i : Nat) (s : String) : Option Spec.NoResponseCache.Obs :=
+  match words s with
+  | "set" :: set :: "sent" :: _n :: rest => do
+    let sent ← parseSentTok (tokName i) rest
+    some (if set == "accepted" then some true else if set == "refused" then some false else none, sent)
+  | _ => none
+
+def parseObsList (i : Nat) : List String → Option (List Spec.NoResponseCache.Obs)
+  | [] => some []
+  | s :: r => do
+    let o ← parseObs i s
+    let rest ← parseObsList (i + 1) r
+    some (o :: rest)
+
+def specReqs : List (Nat × Model.NoResponseCache.Ev) → List (Nat × Spec.NoResponseCache.HReq)
+  | [] => []
+  | (t, .req r) :: h => (t, ⟨r.mid, r.rt, r.noResp, r.code⟩) :: specReqs h
+  | (_, .sweep) :: h => specReqs h
+
 def model (line : String) : String :=
   match words line with
+  | ["srvt", h] =>
+    match parseHistory h with
+    | some st => " ; ".intercalate ((Model.NoResponseCache.run Model.NoResponseCache.empty (timeline 0 0 st)).map fmtOut)
+    | none => "bad-op"
   | ["rwl", c, os] =>
     match c.toNat?, parseOpts os with
     | some c, some opts =>
@@ -102,6 +173,19 @@ def judgeLine (line : String) : String :=
   match line.splitOn " | " with
   | [inp, obs] =>
     match words inp, words obs with
+    | ["srvt", h], _ =>
+      match parseHistory h, parseObsList 0 (obs.splitOn " ; ") with
+      | some st, some os =>
+        let reqs := specReqs (timeline 0 0 st)
+        match Spec.NoResponseCache.judgeHistory [] 0 reqs os with
+        | none => "ok"
+        | some (i, why) =>
+          match reqs[i]? with
+          | some (t, r) =>
+            let (acc, w) := expected .udp r.rt r.noResp r.code
+            s!"violates request {i} (message ID {r.mid} at {t} ms, not a duplicate: every earlier use of the ID is more than EXCHANGE_LIFETIME back): {why}; expected set={if acc then "accepted" else "refused"} wire={repr w}"
+          | none => s!"violates request {i}: {why}"
+      | _, _ => "violates unparsable-observation"
     | ["srv", tr, rt, v, c], "set" :: set :: "sent" :: _n :: rest =>
       match parseTr tr, parseRt rt, parseOptNat v, c.toNat?, parseSent rest with
       | some tr, some rt, some v, some c, some sent =>
